@@ -631,8 +631,13 @@ def rule_tb3(ctx, prog, rid, fns, control=False):
                 if not (x.get('k') == 'bin' and x['op'] == '-' and (const_value(x['r']) or 0) > 0):
                     continue
                 l = strip(x['l'])
+                # unsigned arithmetic: the left operand is unsigned, or it is a plain int that the usual arithmetic
+                # conversions turn into one because the other operand is (`int col; col - kWidth / 2` with a size_t constant)
+                r_uns = any(isinstance(y, dict) and (y.get('tk') == 'uint' or (y.get('ty') or '').replace('const ', '').startswith(('size_t', 'unsigned long', 'std::size_t')))
+                            for y in walk(x['r']))
                 if not (isinstance(l, dict) and l.get('k') == 'var' and
-                        (l.get('tk') == 'uint' or (l.get('ty') or '').startswith(('size_t', 'unsigned', 'std::size_t', 'uint')))):
+                        (l.get('tk') == 'uint' or (l.get('ty') or '').startswith(('size_t', 'unsigned', 'std::size_t', 'uint')) or
+                         (l.get('tk') == 'int' and r_uns))):
                     continue
                 key = (dstr(x), e.get('line'))
                 if key in seen:
@@ -647,6 +652,41 @@ def rule_tb3(ctx, prog, rid, fns, control=False):
                     continue
                 ctx.check(rid, ok, f.name, 'unsigned-underflow:%s' % dstr(x), f.where(e),
                           '`%s` in %s: %s >= %d is known (lower bound %s)' % (dstr(x), (e.get('src') or e.get('name') or '')[:50], dstr(l), c, lo))
+        # the same through a local: `size_t first = col - 36; s.substr(first, ..)`, and a position that is counted down
+        # (`--pos` / `pos -= c`) and then used as a subscript / position argument
+        def unsigned_var(d):
+            d = strip(d)
+            return isinstance(d, dict) and d.get('k') == 'var' and (d.get('tk') == 'uint' or (d.get('ty') or '').replace('const ', '').startswith(
+                ('size_t', 'unsigned', 'std::size_t', 'uint', 'std::string::size_type', 'std::basic_string<char>::size_type')))
+
+        def used_as_position(name):
+            for y in list(f.events('call')) + list(f.events('idx')):
+                ps = (y.get('args') or []) + ([y.get('i')] if y['k'] == 'idx' else [])
+                if y['k'] == 'call' and (y.get('op') == '[]' or lastname(y.get('name') or '') in ('substr', 'replace', 'erase', 'insert', 'at', 'resize', 'append', 'assign', 'compare')) or y['k'] == 'idx':
+                    if any(isinstance(z, dict) and z.get('k') == 'var' and z.get('n') == name for z in walk(ps)):
+                        return True
+            return False
+        for e in f.stores():
+            l = strip(e['l'])
+            if not (unsigned_var(l) and l.get('vk') == 'local') or not used_as_position(l['n']):
+                continue
+            r = strip(e.get('r'))
+            site = None
+            if e.get('op') == '=' and isinstance(r, dict) and r.get('k') == 'bin' and r['op'] == '-' and (const_value(r['r']) or 0) > 0 and unsigned_var(r['l']):
+                site = (r['l'], const_value(r['r']), dstr(r))
+            elif e.get('op') in ('--', '-=') :
+                site = (e['l'], const_value(e.get('r')) if e.get('op') == '-=' else 1, '%s %s' % (dstr(e['l']), e.get('op')))
+            if not site or not site[1]:
+                continue
+            xl, c, txt = site
+            lo, hi = bounds(f, e, xl)
+            ok = lo >= c or lower_bound_on_all_paths(f, e, xl, c)
+            n += 1
+            if control:
+                bad += 0 if ok else 1
+                continue
+            ctx.check(rid, ok, f.name, 'unsigned-underflow:%s' % txt, f.where(e),
+                      '`%s` (later used as a position) in %s: %s >= %d is known (lower bound %s)' % (txt, f.name, dstr(xl), c, lo))
     return bad if control else n
 
 
